@@ -54,7 +54,10 @@ func Monitors(o Outcome) []Finding {
 				firstCret = i
 			}
 		case "recv":
-			if firstCret >= 0 {
+			// a polling reader's receive is logged where it happened; a blocking reader's receive
+			// happened somewhere after position Lo: it is after Close returned only if the return
+			// was logged before the receive even began
+			if firstCret >= 0 && (e.Lo == 0 || firstCret < e.Lo) {
 				add("delivery-after-close", "subscriber %d received %d after Close returned", e.A, e.V)
 			}
 			if _, ok := bcallPos[e.V]; !ok {
